@@ -33,7 +33,17 @@ ObsWF(cfg, o) ==
 
 \* C04 does not prescribe an enumeration order: membership only (order is C09 / C02);
 \* key equality is the kind's own (Go == or comparator equivalence)
+LoadPost(cfg, pre, e) == IF e.r[1] THEN AddAll(cfg, <<>>, e.a.vs) ELSE pre.vals
+C12(pre, e) == e.op = "FromJSON" =>
+  /\ Completed(e)
+  /\ LET want == LoadPost(e.cfg, pre, e) IN
+       /\ Len(e.post.vals) = Len(want)
+       /\ \A x \in Members(want) : Hit(e.cfg, e.post.vals, x)
+       /\ SameSet(e.cfg, e.post.vals, want)        \* same order for sorted / linked kinds; the representative of
+                                                    \* comparator-equal members is free
+  /\ ObsWF(e.cfg, e.post)
 C04x(pre, e) ==
+  e.op # "FromJSON" =>
   /\ Completed(e)
   /\ LET want == SetPost(e.cfg, pre.vals, e) IN
        /\ Len(e.post.vals) = Len(want)
@@ -44,7 +54,7 @@ C04x(pre, e) ==
 
 \* C09: LinkedHashSet enumerates in insertion order (Values, iterator, Each, ToJSON)
 C09(pre, e) ==
-  e.cfg.linked =>
+  (e.cfg.linked /\ e.op # "FromJSON") =>
     /\ Completed(e)
     /\ e.post.vals = SetPost(e.cfg, pre.vals, e)
     /\ e.post.iter = e.post.vals /\ e.post.each = e.post.vals /\ e.post.jvals = e.post.vals
@@ -70,6 +80,7 @@ Obl(p, pre, e) ==
   CASE p = "C04" -> C04x(pre, e)
     [] p = "C09" -> C09(pre, e)
     [] p = "C02" -> C02(pre, e)
+    [] p = "C12" -> C12(pre, e)
     [] p = "C15" -> C15(pre, e)
     [] p = "C17" -> SilentOK(e)
     [] p = "C18" -> C18(pre, e)
